@@ -94,7 +94,7 @@ class CodeGenModel:
             st = I.expr(args[0], env)
             self.cb.fields['instrs'].items.append(Obj('STMT', {'stmt': st}, 'STMT[%s]' % getattr(st, 'name', '?')))
             return None
-        if kind == 'method' and name == 'containsCall':
+        if kind == 'method' and name == 'containsCall' and not getattr(self, 'real_contains_call', False):
             e = I.expr(args[0], env)
             return const(1, False, int(_contains_call(e)))
         if kind == 'method' and name == 'str' and obj is not None:
@@ -777,6 +777,53 @@ def rule_subscripts(rep, idx, rid='R16'):
             rep.add(rid, key, bad is None, where, bad or 'template %s' % [t for t, _ in M.instrs()])
 
 
+KNOWN_PASSES = {'xcmp::CreateSymbols': 'builds the symbol table (modelled by CodeGenModel.symbol)', 'xcmp::ConstProp': 'run through XModel.const_prop',
+                'xcmp::AstPrinter': 'output only', 'xcmp::OptimiseExpr': 'run through the real accept() traversal',
+                'xcmp::CodeGen': 'the pass under analysis', 'xcmp::ReportMemoryInfo': 'output only'}
+
+
+def driver_passes(idx):
+    """The visitor classes that xcmp::Driver::run applies to the tree, in order."""
+    run = idx.func('xcmp::Driver::run')
+    decls = {d['id']: d for d in walk(run.body) if d['kind'] == 'VarDecl'}
+    out = []
+    for c in cast.calls_in(run.body):
+        kind, name, did, obj = callee_of(c)
+        if name == 'accept':
+            for x in walk(cast.call_args(c)[0]):
+                if x['kind'] == 'DeclRefExpr' and (x.get('referencedDecl') or {}).get('id') in decls:
+                    out.append(qt(decls[x['referencedDecl']['id']]).replace('class ', '').replace('struct ', ''))
+    if 'xcmp::CodeGen' not in out or 'xcmp::OptimiseExpr' not in out:
+        raise AnalysisBroken('xcmp::Driver::run: the pass pipeline (accept(&pass) calls) was not recognised: %s' % out)
+    return out
+
+
+def run_pipeline(M, node):
+    """Apply to an abstract expression tree what the driver applies to the whole tree before code generation: constant propagation,
+    any pass this model does not know by name (through its real visitor and the real accept() traversal, in its place in the
+    order), and the expression optimiser.  Returns the tree that code generation would see."""
+    idx = M.idx
+    for cls in driver_passes(idx):
+        if cls == 'xcmp::CodeGen':
+            break
+        if cls == 'xcmp::ConstProp':
+            M.X.const_prop(node)
+            continue
+        if cls in KNOWN_PASSES and cls != 'xcmp::OptimiseExpr':
+            continue
+        q = cls if cls in idx.records else idx._resolve_record_name(cls.split('::')[-1], 'xcmp::Driver')
+        v = M.I.construct(q, [])
+        v.fields.setdefault('exprReplacement', None)
+        acc = M.I.resolve_method(node, 'accept', None)
+        M.I.invoke(acc, node, [v])
+        r = v.fields.get('exprReplacement')
+        if isinstance(r, ivinterp.Moved):
+            r = r.value
+        if isinstance(r, Obj):
+            node = r
+    return node
+
+
 def _is_leaf_expr(e):
     return isinstance(e, Obj) and (e.cls in ('xcmp::VarRefExpr', 'xcmp::NumberExpr', 'xcmp::BooleanExpr', 'xcmp::StringExpr') or
                                    e.fields.get('constValue') is not None)
@@ -794,6 +841,9 @@ def actual_stores(M, first_slot, actuals):
         if tk == 'EXPR':
             r = d.fields['reg']
             e = d.fields['expr']
+            if slots and _contains_call(e):
+                problems.append('the actual %s contains a call but is evaluated after outgoing slot(s) sp%s of the enclosing call have been '
+                                'written: the inner call builds its own frame in the same words and overwrites them' % (M.X.show(e), sorted(slots)))
             regs[r] = ('val', e)
             if not _is_leaf_expr(e):
                 regs['B' if r == 'A' else 'A'] = None
@@ -846,7 +896,8 @@ def rule_call_registers(rep, idx, rid='R14'):
     act_kinds = ('var', 'num', 'op', 'notop', 'call', 'andor')
     for callkind, mk, first in (('func', lambda M, a: M.X.call('fn_a', a), 2), ('proc', lambda M, a: M.X.call('pr_a', a), 1),
                                 ('syscall', lambda M, a: M.X.syscall(1, a), 2)):
-        for kinds in itertools.chain(itertools.product(act_kinds, repeat=2), [('var', 'andor', 'var'), ('op', 'call', 'andor')]):
+        for kinds in itertools.chain(itertools.product(act_kinds, repeat=2), [('var', 'andor', 'var'), ('op', 'call', 'andor'),
+                                                                               ('var', 'gr-call'), ('num', 'neg-call'), ('gr-call', 'var'), ('op', 'gr-call', 'var')]):
             M = CodeGenModel(idx, 'A')
             for n in ('a', 'b', 'c', "a'", "b'", "c'"):
                 M.symbol(n, 'VAR', 'f')
@@ -855,7 +906,12 @@ def rule_call_registers(rep, idx, rid='R14'):
             M.symbol('pr_a', 'PROC', '')
             ok_ = dict(operand_kinds(M))
             ok_['andor'] = lambda n: M.X.binop('OR', M.X.binop('EQ', M.X.var(n), M.X.num(1)), M.X.binop('EQ', M.X.var(n), M.X.num(2)))
-            actuals = [ok_[k](n) for k, n in zip(kinds, ('a', 'b', 'c'))]
+            # comparisons / negation that OptimiseExpr rewrites into fresh nodes, with a call inside: taken through the driver's real passes
+            ok_['gr-call'] = lambda n: M.X.binop('GR', M.X.call('fn_' + n, [M.X.num(1)]), M.X.var(n))
+            ok_['neg-call'] = lambda n: M.X.unop('MINUS', M.X.call('fn_' + n, [M.X.num(1)]))
+            M.real_contains_call = True
+            # every actual goes through the passes the driver runs before code generation (annotations included)
+            actuals = [run_pipeline(M, ok_[k](n)) for k, n in zip(kinds, ('a', 'b', 'c'))]
             node = mk(M, actuals)
             key = '%s(%s)' % (callkind, ','.join(kinds))
             where = 'xcmp.hpp xcmp::CodeBuffer::gen%sCall / genCallActuals / loadActuals' % {'func': 'Func', 'proc': 'Proc', 'syscall': 'Sys'}[callkind]
